@@ -1,7 +1,7 @@
 #!/usr/bin/env bash
 # tools/all.sh [quick|thorough] : run every claimed check, print a one-line summary each
 tier="${1:-quick}"
-cd /verif
+cd "$(dirname "$(readlink -f "$0")")/.."
 for id in $(python3 -c "import json;print(' '.join(c['property_id'] for c in json.load(open('MANIFEST.json'))['checks']))"); do
   s=$(date +%s.%N)
   out="$(./run "$tier" "$id" 2>&1)"; rc=$?
